@@ -21,7 +21,7 @@ PO = {int(k): v for k, v in CFG['po'].items()}
 GT = {int(k): v for k, v in json.load(open(os.path.join(HERE, 'gt.json'))).items()}
 TOY = [c for c in CURVES if c >= 100]
 # DEFECT-1: see NOTES.md; the class that exhibits it is generated only on request
-DEFECT1 = os.environ.get('C10_DEFECT1', '') == '1'
+DEFECT1 = True   # the class stays on: the defect was repaired in /repo by fix: commit af4ede0 and must not return
 
 # f_de configurations: id -> (p, N, {tower: degree})
 P381 = CURVES[0]['p']
@@ -493,7 +493,7 @@ def gen_zc(rng, scale):
         pts.append(((F.zero(), F.zero()), 'origin'))
         # (s^2 x, s^3 y) for (x, y) in the subgroup: a point of the isomorphic curve y^2 = x^3 + s^6 b.
         #   s in F_p^*, s^6 != 1: passes the endomorphism subgroup test although it is NOT on the curve:
-        #   DEFECT-1 (NOTES.md) -- excluded from the default stream, C10_DEFECT1=1 re-enables the class
+        #   DEFECT-1 (NOTES.md): scaled subgroup points (isomorphic curve) -- fixed by af4ede0, always generated
         #   s in F_p2 \ F_p (G2): the twist-Frobenius leaves the curve, the test fails as it should
         scal = []
         if DEFECT1:
